@@ -2,7 +2,8 @@
    Only statements, each closed by `exact`, each followed by Print Assumptions. *)
 From Coq Require Import List NArith ZArith Bool.
 From Vy Require Import Model.Base Model.Lexer Model.Parser Model.Transpile Model.PyTree Model.PyShape
-  Gen.Elements Gen.TemplateShapes Proofs.ParserFacts Proofs.C02Proofs Proofs.ParseInvariants.
+  Gen.Elements Gen.TemplateShapes Proofs.ParserFacts Proofs.C02Proofs Proofs.ParseInvariants
+  Model.Provenance Model.Layout Proofs.LayoutTemplates Proofs.LayoutBlocks Proofs.LayoutProofs.
 Import ListNotations.
 
 (* every element and modifier template of the regenerated tables is, on its own, a
@@ -57,3 +58,77 @@ Proof.
   eexists; split; vm_compute; reflexivity.
 Qed.
 Print Assumptions C02_nonvacuous.
+
+(* ---- TEXT and SHAPE connected inside Coq (Model/Layout.v: an executable reading of Python's
+   indentation-based block structure) ------------------------------------------------------------- *)
+
+(* for EVERY element key and modifier character (also the ones outside the tables, `pass`):
+   laying out the template text that the transpiler indents gives exactly the block skeleton
+   that the translator read from the template with Python's `ast` *)
+Theorem C02_layout_templates :
+  (forall k, layout (element_text k) = Some (elem_shape k)) /\
+  (forall m, layout (modifier_text m) = Some (modif_shape m)).
+Proof. exact layout_templates. Qed.
+Print Assumptions C02_layout_templates.
+
+(* the block parser never runs out of the fuel `layout` gives it: None means "rejected" *)
+Theorem C02_layout_total : forall text, layout_res text <> LayFuel.
+Proof. exact layout_never_out_of_fuel. Qed.
+Print Assumptions C02_layout_total.
+
+(* TEXT = SHAPE for every structure (all constructors, unbounded nesting), every indentation,
+   every state of the id counters and ANY dictionary function: the text `tr` emits, read by
+   Layout at column 4*indent, is `shape s`.  Side conditions on the tree: token payloads are
+   what the lexer delivers (`tree_ok`: variable names are identifier characters, numbers are
+   number characters, no carriage return in a string after decompression) and no `if` with
+   zero branches (the parser never builds one, ParseInvariants.parse_ne) *)
+Theorem C02_layout_tr : forall undict s indent c text c',
+  tree_ok (QT undict) s -> ifs_nonempty s = true ->
+  tr undict s indent c = TOk (text, c') -> layout_at (4 * indent) text = Some (PyShape.shape s).
+Proof. exact layout_tr. Qed.
+Print Assumptions C02_layout_tr.
+
+(* the same for whole programs *)
+Theorem C02_layout : forall undict l text,
+  Forall (tree_ok (QT undict)) l -> forallb ifs_nonempty l = true ->
+  transpile_ast undict l = TOk text -> layout text = Some (shape_program l).
+Proof. exact layout_program. Qed.
+Print Assumptions C02_layout.
+
+(* end to end, for ALL program texts and ANY dictionary function that introduces no carriage
+   return: what the transpiler emits is accepted by Coq's reading of Python's block structure
+   and context conditions.  `wconds` excludes the recorded defect class (early exit in a while
+   condition, C02_nonvacuous / C02_layout_examples show it is really rejected); the
+   carriage-return hypotheses date from before the transpiler escaped it (a raw CR in a string was an
+   unterminated literal for Python and for Layout: the defect this theorem exposed, repaired in /repo,
+   see C02_layout_examples); they hold for every program over the code page *)
+Theorem C02_text_accepted : forall undict src l text,
+  undict_no_cr undict -> mem 13 src = false ->
+  parse_source src = Ok l -> forallb wconds l = true ->
+  transpile_ast undict l = TOk text -> accepts text = true.
+Proof. exact text_accepted. Qed.
+Print Assumptions C02_text_accepted.
+
+Theorem C02_text_accepted_nodict : forall src text,
+  mem 13 src = false -> (exists l, parse_source src = Ok l /\ forallb wconds l = true) ->
+  transpile_nodict src = OText text -> accepts text = true.
+Proof. exact text_accepted_nodict. Qed.
+Print Assumptions C02_text_accepted_nodict.
+
+Theorem C02_codepage_has_no_cr : mem 13 Gen.Codepage.codepage = false.
+Proof. exact codepage_no_cr. Qed.
+Print Assumptions C02_codepage_has_no_cr.
+
+(* non-vacuity: a program with a for loop, a three-branch if, a string spanning two physical
+   lines, a lambda, nested list literals, modifiers, a function definition and call, a while loop
+   satisfies every premise and is accepted; {X|1} is rejected; a string holding a carriage return is
+   accepted (the transpiler escapes it) *)
+Theorem C02_layout_examples :
+  (exists l text,
+     parse_source demo_layout_src = Ok l /\ forallb wconds l = true /\ mem 13 demo_layout_src = false /\
+     transpile_ast (fun s => s) l = TOk text /\ layout text = Some (shape_program l) /\ accepts text = true)
+  /\ accepts_source [123;88;124;49;125] = Some false
+  /\ (exists l text, parse_source [96;13;96] = Ok l /\ forallb wconds l = true /\
+                     transpile_ast (fun s => s) l = TOk text /\ accepts text = true).
+Proof. exact (conj layout_nonvacuous (conj layout_rejects_known_bad layout_cr_escaped)). Qed.
+Print Assumptions C02_layout_examples.
